@@ -1062,6 +1062,427 @@ pub fn c14(seed: u64, budget: u64) -> FOut {
     out
 }
 
+/// C07: every emitted datagram is well-formed, bounded and accepted by its peer
+pub fn c07(seed: u64, budget: u64) -> FOut {
+    let mut out = FOut::default();
+    out.rule = "seeded histories (300 calls) over a sweep of packet sizes (just-fits-a-header .. 70000, every remainder mod the member size), fixed- and variable-length identities (pad 0..2), custom items of several sizes; every datagram handed to the runtime is checked by an independent parser: length <= max_packet_size, header src = current identity/incarnation, header dst = destination, kind-specific layout (Announce/TurnUndead nothing, Broadcast no member section, count = number of members, items non-empty and exactly framed, nothing else), Feed lists only active members other than receiver and sender; then it is delivered to a fresh peer whose identity is the destination: no Decode / MalformedPacket / DataTooBig. distinct = distinct (message kind, number of updates, number of items) shapes seen".into();
+    let mut shapes: HashSet<(String, usize, usize)> = HashSet::new();
+    for h in 0..budget {
+        let hs = seed.wrapping_mul(7877).wrapping_add(h);
+        let mut hits: Vec<(String, J)> = vec![];
+        let sizes = [16u128, 17, 18, 19, 20, 21, 22, 23, 24, 25, 26, 27, 28, 29, 30, 31, 32, 33, 34, 35, 36, 40, 45, 50, 63, 64, 65, 100, 127, 128, 129, 255, 256, 257, 300, 1400, 65535, 65536, 70000];
+        let size = sizes[(h as usize) % sizes.len()];
+        history(hs, 300, |c, _| { c.max_packet_size = size; }, |pre, input, effs, _o, post, _rep| {
+            if let Input::ChangeIdentity(n) = input {
+                if n.a != pre.identity.a {
+                    return false;
+                }
+            }
+            for e in effs {
+                if let Eff::Send(d, b) = e {
+                    let ctx = |what: &str| J::s(format!("{what}: dst={d:?} bytes={b:?} on {input:?} (history {hs}, max_packet_size {})", pre.cfg.max_packet_size));
+                    if b.len() as u128 > pre.cfg.max_packet_size.max(post.cfg.max_packet_size) {
+                        hits.push(("C07:too-long".into(), ctx("too long")));
+                        continue;
+                    }
+                    let Some((hd, ups, cus)) = split_datagram(b) else {
+                        hits.push(("C07:does-not-parse".into(), ctx("does not parse")));
+                        continue;
+                    };
+                    let src_ok = (hd.src == pre.identity && hd.src_incarnation as u128 == pre.incarnation)
+                        || (hd.src == post.identity && hd.src_incarnation as u128 <= post.incarnation)
+                        || (hd.src == pre.identity && hd.src_incarnation as u128 >= pre.incarnation);
+                    if !src_ok || hd.dst != *d {
+                        hits.push(("C07:wrong-header".into(), ctx("header src/dst")));
+                    }
+                    let kind = format!("{:?}", hd.message);
+                    let kind = kind.split(|c| c == '(' || c == ' ').next().unwrap_or("").to_string();
+                    shapes.insert((kind.clone(), ups.len(), cus.len()));
+                    use foca::Message as Mg;
+                    let hdr_len = header_bytes(&hd).len();
+                    match hd.message {
+                        Mg::Announce | Mg::TurnUndead => {
+                            if b.len() != hdr_len {
+                                hits.push(("C07:payload-on-header-only-kind".into(), ctx("extra bytes")));
+                            }
+                        }
+                        Mg::Broadcast => {
+                            if !ups.is_empty() {
+                                hits.push(("C07:broadcast-with-members".into(), ctx("member section")));
+                            }
+                        }
+                        Mg::Feed => {
+                            for u in &ups {
+                                if let Ok(m) = dec_member(&mut &u[..]) {
+                                    let known_active = post.members.iter().chain(pre.members.iter()).any(|x| x.id == *m.id() && x.active());
+                                    if !known_active || m.id() == d || m.id().a == pre.identity.a || m.state() == foca::State::Down {
+                                        hits.push(("C07:feed-lists-wrong-member".into(), ctx(&format!("feed member {m:?}"))));
+                                    }
+                                }
+                            }
+                        }
+                        _ => {}
+                    }
+                    // deliver to a fresh peer that is the destination
+                    let mut peer = Inst::new(*d, &post.cfg, 1, post.h_mode, 255);
+                    let (_e2, o2) = run_real(&mut peer.foca, &Input::Data(b.clone()));
+                    if matches!(o2, Outcome::Failed(0) | Outcome::Failed(7) | Outcome::Failed(9) | Outcome::Panicked(_)) {
+                        // a handler error for key 255 items is the handler's, not Foca's
+                        hits.push(("C07:peer-rejects".into(), ctx(&format!("peer result {o2:?}"))));
+                    }
+                }
+            }
+            true
+        });
+        out.runs += 1;
+        for (s, d) in hits {
+            out.hit(&s, d);
+        }
+        if h < 1 {
+            out.samples.push(J::s(format!("history seed {hs}, max_packet_size {size}")));
+        }
+    }
+    for sh in shapes {
+        out.distinct.insert(hash_of(&sh));
+    }
+    out
+}
+
+fn msg_kind(m: &foca::Message<VId>) -> &'static str {
+    use foca::Message::*;
+    match m {
+        Ping(_) => "Ping",
+        Ack(_) => "Ack",
+        PingReq { .. } => "PingReq",
+        IndirectPing { .. } => "IndirectPing",
+        IndirectAck { .. } => "IndirectAck",
+        ForwardedAck { .. } => "ForwardedAck",
+        Announce => "Announce",
+        Feed => "Feed",
+        Gossip => "Gossip",
+        Broadcast => "Broadcast",
+        TurnUndead => "TurnUndead",
+    }
+}
+
+/// C15: dissemination accounting of cluster updates
+pub fn c15(seed: u64, budget: u64) -> FOut {
+    let mut out = FOut::default();
+    out.rule = "seeded histories (300 calls) with max_transmissions in {1,2,3,10,255} and packet sizes from one-update-fits to everything-fits, fixed and variable update sizes; a per-address ledger (data, transmissions left) is kept from the emitted update sections alone and compared with the real backlog after every call: at most one entry per address, every piggybacked update is a pending one, each appears on at most max_transmissions datagrams and leaves after exactly that many, a replaced entry restarts, updates are written in non-increasing (transmissions left, length) order, a pending update that would still fit in the room left is never omitted, Feed/Announce/TurnUndead/Broadcast consume nothing, apply_many(.., false) leaves the backlog untouched. distinct = histories in which at least 10 update items were piggybacked".into();
+    for h in 0..budget {
+        let hs = seed.wrapping_mul(15485863).wrapping_add(h);
+        let mut ledger: BTreeMap<u128, (Vec<u8>, u128)> = BTreeMap::new(); // addr -> (data, remaining)
+        let mut hits: Vec<(String, J)> = vec![];
+        let mut items_seen = 0u64;
+        let sizes = [26u128, 30, 35, 37, 40, 46, 48, 55, 64, 80, 120, 200, 1400];
+        history(hs, 300, |c, g| {
+            c.max_packet_size = sizes[(h as usize) % sizes.len()];
+            c.max_transmissions = *g.pick(&[1u128, 2, 3, 10, 255]);
+        }, |pre, input, effs, o, post, _rep| {
+            if let Input::SetConfig(_) = input {
+                // keep max_transmissions fixed so that the ledger needs no history of configs
+                if post.cfg.max_transmissions != pre.cfg.max_transmissions || post.cfg.max_packet_size != pre.cfg.max_packet_size {
+                    return false;
+                }
+            }
+            let maxtx = pre.cfg.max_transmissions;
+            let ctx = |what: &str| J::s(format!("{what} on {input:?} (history {hs}); backlog before {:?} after {:?}", pre.updates, post.updates));
+            // (a) one entry per address
+            let mut seen = HashSet::new();
+            for (_, a, _) in &post.updates {
+                if !seen.insert(*a) {
+                    hits.push(("C15:two-updates-for-one-address".into(), ctx("duplicate address")));
+                }
+            }
+            // calls that only send (nothing can be accepted before their datagrams are built)
+            let pure_send = matches!(input, Input::Gossip | Input::Timer(MTimer::Gossip(_)) | Input::Timer(MTimer::Announce(_)) | Input::Timer(MTimer::AnnounceDown(_)) | Input::Timer(MTimer::Indirect(..)) | Input::Broadcast | Input::Announce(_));
+            // walk the datagrams of this call
+            let mut appeared: BTreeMap<u128, u128> = BTreeMap::new();
+            for e in effs {
+                let Eff::Send(_d, b) = e else { continue };
+                let Some((hd, ups, _cus)) = split_datagram(b) else { continue };
+                let kind = msg_kind(&hd.message);
+                let consumes = !matches!(kind, "Feed" | "Announce" | "TurnUndead" | "Broadcast");
+                if !consumes {
+                    continue;
+                }
+                let hdr_len = header_bytes(&hd).len() as u128;
+                let upd_len: u128 = ups.iter().map(|u| u.len() as u128).sum();
+                let room_left = pre.cfg.max_packet_size.saturating_sub(hdr_len + 2 + upd_len);
+                let has_count = b.len() as u128 >= hdr_len + 2;
+                let mut last_prio: Option<(u128, usize)> = None;
+                let mut written: HashSet<u128> = HashSet::new();
+                for u in &ups {
+                    items_seen += 1;
+                    let Ok(m) = dec_member(&mut &u[..]) else { continue };
+                    let a = m.id().a as u128;
+                    written.insert(a);
+                    *appeared.entry(a).or_default() += 1;
+                    match ledger.get_mut(&a) {
+                        Some((data, rem)) if data == u && *rem > 0 => {
+                            let pr = (*rem, u.len());
+                            if let Some(lp) = last_prio {
+                                if pr > lp && pure_send {
+                                    hits.push(("C15:precedence".into(), ctx(&format!("update for address {a} with {pr:?} written after one with {lp:?}"))));
+                                }
+                            }
+                            last_prio = Some(pr);
+                            *rem -= 1;
+                        }
+                        _ => {
+                            // accepted earlier in this very call (or replaced): starts a fresh count
+                            ledger.insert(a, (u.clone(), maxtx - 1));
+                            last_prio = None;
+                        }
+                    }
+                }
+                if has_count && pure_send {
+                    // maximality w.r.t. entries known before the call and untouched by it so far
+                    for (a, (data, rem)) in ledger.iter() {
+                        if *rem > 0 && !written.contains(a) && (data.len() as u128) <= room_left && ups.len() < 65535 {
+                            // only entries that were pending before this call and are still there afterwards unchanged
+                            let still = post.updates.iter().any(|(tx, aa, d)| aa == a && d == data && *tx == *rem);
+                            let before = pre.updates.iter().any(|(_, aa, d)| aa == a && d == data);
+                            if still && before {
+                                hits.push(("C15:fitting-update-omitted".into(), ctx(&format!("address {a} ({} bytes) fits in the {room_left} bytes left of a {kind}", data.len()))));
+                            }
+                        }
+                    }
+                }
+            }
+            ledger.retain(|_, v| v.1 > 0);
+            // reconcile with the real backlog
+            for (tx, a, d) in &post.updates {
+                match ledger.get(a) {
+                    Some((data, rem)) if data == d && rem == tx => {}
+                    _ => {
+                        // (re-)accepted somewhere in this call: it restarted at max_transmissions and
+                        // may have been carried by some of this call's later datagrams
+                        let ap = *appeared.get(a).unwrap_or(&0);
+                        if pure_send || *tx > maxtx || *tx + ap < maxtx {
+                            hits.push(("C15:counter-mismatch".into(), ctx(&format!("address {a}: backlog says {tx} of {maxtx} left, {ap} appearances in this call, ledger {:?}", ledger.get(a).map(|x| x.1)))));
+                        }
+                        ledger.insert(*a, (d.clone(), *tx));
+                    }
+                }
+            }
+            let gone: Vec<u128> = ledger.keys().filter(|a| !post.updates.iter().any(|(_, aa, _)| aa == *a)).cloned().collect();
+            for a in gone {
+                hits.push(("C15:entry-left-early".into(), ctx(&format!("address {a} left with {} transmissions to go", ledger[&a].1))));
+                ledger.remove(&a);
+            }
+            // (f) no broadcast
+            if let Input::ApplyMany(l, false) = input {
+                if *o == Outcome::Done && !l.iter().any(|m| m.id == pre.identity) && post.updates != pre.updates {
+                    hits.push(("C15:no-broadcast-touched-backlog".into(), ctx("apply_many(.., false)")));
+                }
+            }
+            hits.is_empty()
+        });
+        out.runs += 1;
+        if items_seen >= 10 {
+            out.distinct.insert(h);
+        }
+        for (s, d) in hits.into_iter().take(2) {
+            out.hit(&s, d);
+        }
+        if h < 1 {
+            out.samples.push(J::s(format!("history seed {hs}: {items_seen} piggybacked update items")));
+        }
+    }
+    out
+}
+
+/// C16: custom broadcasts
+pub fn c16(seed: u64, budget: u64) -> FOut {
+    let mut out = FOut::default();
+    out.rule = "seeded histories (300 calls) with table-driven handlers (4 invalidation modes, random recipient masks), items of 1..40 bytes, all packet sizes/kinds; a ledger of accepted items (bytes, key, transmissions left) is kept from add_broadcast results, handler calls and emitted custom sections: every item on the wire is a pending one, whole and exactly framed, on at most max_transmissions datagrams, never on Announce/TurnUndead, never to a member the handler refuses, never after a newly accepted key invalidated it; every datagram is delivered to a fresh receiver whose handler must see exactly the framed items, in order, once each, with the sender's identity; broadcast() emits only Broadcast datagrams without member section to at most num_indirect_probes members, nothing when the backlog is empty. distinct = histories with at least 5 custom items on the wire".into();
+    for h in 0..budget {
+        let hs = seed.wrapping_mul(32452843).wrapping_add(h);
+        let mut hits: Vec<(String, J)> = vec![];
+        let mut wire_items = 0u64;
+        // ledger of pending items: (data, key, remaining)
+        let mut ledger: Vec<(Vec<u8>, VKey, u128)> = vec![];
+        let mut fixed_tx: Option<u128> = None;
+        history(hs, 300, |c, _| { if c.max_packet_size < 40 { c.max_packet_size = 64; } }, |pre, input, effs, o, post, rep| {
+            if let Input::SetConfig(_) = input {
+                if post.cfg.max_transmissions != pre.cfg.max_transmissions {
+                    return false;
+                }
+            }
+            if let Input::ChangeIdentity(n) = input {
+                if n.a != pre.identity.a {
+                    return false; // B3
+                }
+            }
+            let maxtx = *fixed_tx.get_or_insert(pre.cfg.max_transmissions);
+            let ctx = |what: &str| J::s(format!("{what} on {input:?} (history {hs}); customs before {:?} after {:?}", pre.customs, post.customs));
+            // datagrams built before the received custom items are handled (gossip triggered by the
+            // updates) versus after (the reply to the message)
+            let n_sends = effs.iter().filter(|e| matches!(e, Eff::Send(..))).count();
+            let reply_is_last = match input {
+                Input::Data(b) => match dec_header(&mut &b[..]) {
+                    Ok(hd) => {
+                        let want = match msg_kind(&hd.message) {
+                            "Ping" => "Ack",
+                            "PingReq" => "IndirectPing",
+                            "IndirectPing" => "IndirectAck",
+                            "IndirectAck" => "ForwardedAck",
+                            "Announce" => "Feed",
+                            _ => "",
+                        };
+                        let last = effs.iter().rev().find_map(|e| if let Eff::Send(_, b) = e { split_datagram(b) } else { None });
+                        !want.is_empty() && last.map(|x| msg_kind(&x.0.message) == want).unwrap_or(false)
+                    }
+                    Err(_) => false,
+                },
+                _ => false,
+            };
+            let _ = o;
+            let pre_accept_sends = if let Input::Data(_) = input { if reply_is_last { n_sends.saturating_sub(1) } else { n_sends } } else { 0 };
+            let accept = |ledger: &mut Vec<(Vec<u8>, VKey, u128)>, data: &[u8], mode: u8| {
+                let key = VKey { k: data[0], v: if data.len() > 1 { data[1] } else { 0 }, mode };
+                use foca::Invalidates;
+                ledger.retain(|(_, k, _)| !key.invalidates(k));
+                ledger.push((data.to_vec(), key, maxtx));
+            };
+            // handler calls of this step tell which received items were accepted: reconstruct with the same rule
+            // (fresh iff unseen key or higher version) using the pre-state handler table
+            let mut seen = pre.h_seen.clone();
+            let mut fresh = |data: &[u8]| -> Option<bool> {
+                if data.is_empty() || data[0] == 255 {
+                    return None;
+                }
+                let (k, v) = (data[0], if data.len() > 1 { data[1] } else { 0 });
+                match seen.iter().position(|x| x.0 == k) {
+                    None => {
+                        seen.push((k, v));
+                        Some(true)
+                    }
+                    Some(p) if seen[p].1 < v => {
+                        seen[p] = (k, v);
+                        Some(true)
+                    }
+                    _ => Some(false),
+                }
+            };
+            let mut accepted_done = false;
+            let mut do_accepts = |ledger: &mut Vec<(Vec<u8>, VKey, u128)>| {
+                for (data, _sender) in &rep.handler_log {
+                    match fresh(data) {
+                        Some(true) => accept(ledger, data, pre.h_mode),
+                        Some(false) => {}
+                        None => break,
+                    }
+                }
+            };
+            if pre_accept_sends == 0 {
+                do_accepts(&mut ledger);
+                accepted_done = true;
+            }
+            if let Input::AddBroadcast(_) = input {
+                // handler_log already covers it
+                let _ = o;
+            }
+            if let Input::Broadcast = input {
+                let sends: Vec<&Eff> = effs.iter().filter(|e| matches!(e, Eff::Send(..))).collect();
+                if pre.customs.is_empty() && !effs.is_empty() {
+                    hits.push(("C16:broadcast-with-empty-backlog".into(), ctx("effects")));
+                }
+                if sends.len() as u128 > pre.cfg.num_indirect_probes {
+                    hits.push(("C16:broadcast-too-many".into(), ctx("more datagrams than num_indirect_probes")));
+                }
+                for e in &sends {
+                    if let Eff::Send(d, b) = e {
+                        match split_datagram(b) {
+                            Some((hd, ups, _)) if hd.message == foca::Message::Broadcast && ups.is_empty() => {
+                                if (pre.h_mask >> (d.a % 8)) & 1 == 0 {
+                                    hits.push(("C16:broadcast-to-refused-member".into(), ctx(&format!("{d:?}"))));
+                                }
+                            }
+                            _ => hits.push(("C16:broadcast-wrong-kind".into(), ctx("not a plain Broadcast datagram"))),
+                        }
+                    }
+                }
+            }
+            let mut send_no = 0usize;
+            for e in effs {
+                let Eff::Send(d, b) = e else { continue };
+                if send_no == pre_accept_sends && !accepted_done {
+                    do_accepts(&mut ledger);
+                    accepted_done = true;
+                }
+                send_no += 1;
+                let Some((hd, _ups, cus)) = split_datagram(b) else {
+                    hits.push(("C16:unparsable-datagram".into(), ctx("split")));
+                    continue;
+                };
+                let kind = msg_kind(&hd.message);
+                if !cus.is_empty() {
+                    if matches!(kind, "Announce" | "TurnUndead") {
+                        hits.push(("C16:items-on-forbidden-kind".into(), ctx(kind)));
+                    }
+                    if (pre.h_mask >> (d.a % 8)) & 1 == 0 {
+                        hits.push(("C16:items-to-refused-member".into(), ctx(&format!("{d:?}"))));
+                    }
+                }
+                let mut used: Vec<usize> = vec![];
+                for it in &cus {
+                    wire_items += 1;
+                    match ledger.iter().enumerate().position(|(i, (data, _, rem))| data == it && *rem > 0 && !used.contains(&i)) {
+                        Some(i) => {
+                            used.push(i);
+                            ledger[i].2 -= 1;
+                        }
+                        None => {
+                            hits.push(("C16:item-not-pending-or-invalidated-or-over-limit".into(), ctx(&format!("item {it:?} in a {kind}; ledger {ledger:?}"))));
+                        }
+                    }
+                }
+                // the receiver sees exactly the items
+                let mut peer = Inst::new(*d, &post.cfg, 1, 0, 255);
+                let (_e2, _o2) = run_real(&mut peer.foca, &Input::Data(b.clone()));
+                let log = peer.foca.verif_handler().log.clone();
+                let mut expect: Vec<(Vec<u8>, Option<VId>)> = vec![];
+                for it in &cus {
+                    expect.push((it.clone(), Some(hd.src)));
+                    if it[0] == 255 {
+                        break;
+                    }
+                }
+                let delivered = hd.src.a != d.a && matches!(_o2, Outcome::Done | Outcome::Failed(10) | Outcome::Failed(6) | Outcome::Failed(8));
+                if delivered && log != expect {
+                    hits.push(("C16:receiver-sees-different-items".into(), ctx(&format!("sent {cus:?}, handler saw {log:?}"))));
+                }
+            }
+            if !accepted_done {
+                do_accepts(&mut ledger);
+            }
+            ledger.retain(|x| x.2 > 0);
+            // reconcile
+            let mut real: Vec<(Vec<u8>, u128)> = post.customs.iter().map(|(tx, _, _, _, d)| (d.clone(), *tx)).collect();
+            let mut mine: Vec<(Vec<u8>, u128)> = ledger.iter().map(|(d, _, r)| (d.clone(), *r)).collect();
+            real.sort();
+            mine.sort();
+            if real != mine {
+                hits.push(("C16:backlog-differs-from-ledger".into(), ctx(&format!("ledger {mine:?} vs backlog {real:?}"))));
+            }
+            hits.is_empty()
+        });
+        out.runs += 1;
+        if wire_items >= 5 {
+            out.distinct.insert(h);
+        }
+        for (s, d) in hits.into_iter().take(2) {
+            out.hit(&s, d);
+        }
+        if h < 1 {
+            out.samples.push(J::s(format!("history seed {hs}: {wire_items} custom items on the wire")));
+        }
+    }
+    out
+}
+
 pub fn run(prop: &str, seed: u64, budget: u64) -> Option<FOut> {
     match prop {
         "C01" => Some(c01(seed, budget)),
@@ -1070,6 +1491,9 @@ pub fn run(prop: &str, seed: u64, budget: u64) -> Option<FOut> {
         "C11" => Some(c11(seed, budget)),
         "C09" => Some(c09(seed, budget)),
         "C14" => Some(c14(seed, budget)),
+        "C07" => Some(c07(seed, budget)),
+        "C15" => Some(c15(seed, budget)),
+        "C16" => Some(c16(seed, budget)),
         "C13" => Some(c13(seed, budget)),
         "C17" => Some(c17(seed, budget)),
         _ => None,
